@@ -12,6 +12,6 @@ PROPERTIES = {
             "veneer module state = names declared `global` in functions of the module + module-level mutable displays + assigned attributes of scenic.core.object_types (mechanical extraction)",
             "@contextmanager functions executed structurally at call sites; as carriers they are driven through their generator body (yield hook)",
         ],
-        not_reached=["translator._scenarioFromStream / purgeModulesUnsafeToCache (module import caching)", "namespace / closure-cell rebinding in requirement closures (C01 item 4)"],
+        not_reached=["translator._scenarioFromStream / purgeModulesUnsafeToCache (module import caching)", "namespace / closure-cell rebinding in requirement closures: under contract for C01 (PendingRequirement.compile.closure, restoration frame), not repeated here"],
     )
 }
